@@ -209,6 +209,27 @@ int main(int argc, char** argv) {
             emit_mod("", scan_endpoint::INF, "", scan_endpoint::INF, rtl, ea, [](const std::string& k, long) { return k.size() == 9; }, rems);
             for (auto& k : ks) if (present[k]) { status rc = remove(tok, st, k); std::string o = "{\"op\":\"rem\",\"k\":" + vh::jbytes(k) + ",\"st\":\"" + vh::stname(rc) + "\"}"; puts(o.c_str()); if (rc == status::OK) present[k] = false; }
         }
+        //  (c) a layer whose root border is full below a layer-0 border that is full as well and holds the link in its upper half; the cursor
+        //      is paused on the first key of the layer; the 16th key of the layer splits its root AND / OR a 16th short key splits the layer-0
+        //      border (the link moves to the new border); resumed (F20: the layer must not be taken for removed)
+        for (int variant = 0; variant < 3; variant++) {
+            auto key9m = [](int x) { std::string k(8, 'm'); k.push_back((char)x); return k; };
+            std::vector<std::string> ks; for (char c = 'a'; c <= 'h'; c++) ks.push_back(std::string(1, c)); for (char c = 'n'; c <= 's'; c++) ks.push_back(std::string(1, c));
+            for (int i = 1; i <= 15; i++) ks.push_back(key9m(i));
+            for (auto& k : ks) { if (std::find(keys.begin(), keys.end(), k) == keys.end()) keys.push_back(k); do_put(k, false, false, 0); }
+            std::vector<std::pair<node_version64_body, node_version64*>> nv; auto cb = [&](node_version64* p, node_version64_body b) { nv.emplace_back(b, p); return false; };
+            iscan_context* ctx = nullptr; void* val = nullptr; status rc = iscan_open(st, "", scan_endpoint::INF, "", scan_endpoint::INF, false, false, ctx, val, cb);
+            std::string o2 = "{\"op\":\"iscanmod\",\"l\":[],\"le\":\"INF\",\"r\":[],\"re\":\"INF\",\"rtl\":false,\"ea\":false,\"st\":\"" + std::string(vh::stname(rc)) + "\",\"steps1\":[";
+            long got = 0; while (rc == status::OK) { std::string fk = ctx->full_key(); if (got) o2 += ","; o2 += "[" + vh::jbytes(fk) + "," + (val ? std::to_string(*(int*)val) : std::string("-1")) + "]"; got++; if (fk.size() == 9) break; rc = iscan_next(ctx, val, cb); }
+            o2 += "],\"st1\":\"" + std::string(vh::stname(rc)) + "\",\"mids\":["; bool f = true;
+            std::vector<std::string> ins; if (variant != 1) ins.push_back(key9m(16)); if (variant != 2) ins.push_back("t");
+            for (auto& k : ins) { int vid = ++vctr; int buf[2] = {vid, 0}; status mrc = put<char>(tok, st, k, (char*)buf, 8); if (mrc == status::OK) present[k] = true; if (std::find(keys.begin(), keys.end(), k) == keys.end()) keys.push_back(k);
+                if (!f) o2 += ","; f = false; o2 += "{\"op\":\"put\",\"k\":" + vh::jbytes(k) + ",\"v\":" + std::to_string(vid) + ",\"st\":\"" + vh::stname(mrc) + "\"}"; ks.push_back(k); }
+            o2 += "],\"steps2\":["; long n2 = 0; rc = iscan_next(ctx, val, cb);
+            while (rc == status::OK) { std::string fk = ctx->full_key(); if (n2) o2 += ","; o2 += "[" + vh::jbytes(fk) + "," + (val ? std::to_string(*(int*)val) : std::string("-1")) + "]"; n2++; if (n2 > 400) break; rc = iscan_next(ctx, val, cb); }
+            o2 += "],\"end\":\"" + std::string(vh::stname(rc)) + "\""; { vh::Canon c2(ti); o2 += ",\"dump\":" + vh::dump_json(c2, valjson); } o2 += "}"; puts(o2.c_str()); if (ctx) iscan_close(ctx); have_read = false;
+            for (auto& k : ks) if (present[k]) { status rc2 = remove(tok, st, k); std::string o = "{\"op\":\"rem\",\"k\":" + vh::jbytes(k) + ",\"st\":\"" + vh::stname(rc2) + "\"}"; puts(o.c_str()); if (rc2 == status::OK) present[k] = false; }
+        }
         for (int variant = 0; variant < 2; variant++) {
             std::vector<std::string> ks; for (int i = 1; i <= 24; i++) ks.push_back(std::string(1, (char)i));
             for (auto& k : ks) { if (std::find(keys.begin(), keys.end(), k) == keys.end()) keys.push_back(k); do_put(k, false, false, 0); }
